@@ -69,6 +69,7 @@ Export == IF ExportOn THEN PrintT(ToJson([case |-> inp', expect |-> Obs(out')]))
 
 \* the clauses hold on the model's own result (the one-directional clauses are consequences of the transcription)
 InvGradeConsistent   == out # <<>> => OneGradeConsistent(inp.rep, inp.rcs, inp.u11, Obs(out))
+InvReportHonoured    == out # <<>> => OneReportHonoured(inp.rep, inp.rcs, Obs(out))
 InvAnswerBacked      == out # <<>> => OneAnswerBacked(inp.l, inp.r, inp.n, Obs(out))
 InvConsensusHonoured == out # <<>> => OneConsensusHonoured(inp.l, inp.r, inp.n, Obs(out))
 \* left / right symmetry of the published rule
